@@ -11,6 +11,7 @@ import (
 
 func init() {
 	register("C11_Programs", C11_Programs)
+	register("C11_StoreFailure", C11_StoreFailure)
 }
 
 type underWrap struct{ http.ResponseWriter }
@@ -144,4 +145,68 @@ func C11_Programs() {
 		}
 	}
 	verif.Assert(orderOK, "client state is delivered before any header or body byte is released")
+}
+
+// C11_StoreFailure: "nothing is delivered twice however many times the handler writes", when a
+// client-state store refuses its delivery: every program of 4 operations over {put session, put
+// cookie, WriteHeader, Write} with the session store or the cookie store failing. The failed
+// flush is not repeated by later writes: each store sees at most one delivery, a store that
+// accepted its delivery got exactly the changes queued before the first write, and Write
+// reports the failure.
+func C11_StoreFailure() {
+	w := world.New()
+	failSession := verif.Choice("failing-store", 2) == 0
+	w.Session.FailWrite, w.Cookies.FailWrite = failSession, !failSession
+	var wantS, wantC []ev
+	wrote := false
+	firstWriteErr := false
+	h := http.HandlerFunc(func(wr http.ResponseWriter, r *http.Request) {
+		for i := 0; i < 4; i++ {
+			key := verif.String("key", 2)
+			val := verif.String("val", 2)
+			switch verif.Choice("op", 4) {
+			case 0:
+				authboss.PutSession(wr, key, val)
+				if !wrote {
+					wantS = append(wantS, ev{Kind: authboss.ClientStateEventPut, Key: key, Value: val})
+				}
+			case 1:
+				authboss.PutCookie(wr, key, val)
+				if !wrote {
+					wantC = append(wantC, ev{Kind: authboss.ClientStateEventPut, Key: key, Value: val})
+				}
+			case 2:
+				wr.WriteHeader(200) // panics when the flush fails (recovered below)
+				wrote = true
+			case 3:
+				_, err := wr.Write([]byte(val))
+				if !wrote {
+					firstWriteErr = err != nil
+				}
+				wrote = true
+			}
+		}
+	})
+	rec := world.NewRecorder()
+	panicked, _ := world.Try(func() {
+		w.AB.LoadClientStateMiddleware(h).ServeHTTP(rec, world.Request("GET", "/", ""))
+	})
+	verif.Witness(panicked, "WriteHeader-panics-on-a-failed-flush")
+	verif.Witness(firstWriteErr, "Write-reports-a-failed-flush")
+	verif.Assert(w.Session.WriteCalls <= 1, "the session store sees at most one delivery")
+	verif.Assert(w.Cookies.WriteCalls <= 1, "the cookie store sees at most one delivery")
+	if failSession {
+		verif.Assert(len(w.Session.Events) == 0, "a refused delivery changes nothing")
+		if len(wantS) > 0 {
+			verif.Assert(len(w.Cookies.Events) == 0, "after the session store refused, nothing else is delivered")
+		} else if w.Cookies.WriteCalls == 1 {
+			verif.Assert(sameEvents(w.Cookies.Events, wantC), "the cookie store that accepted its delivery got exactly the changes made before the first write")
+		}
+	} else if w.Session.WriteCalls == 1 {
+		verif.Assert(sameEvents(w.Session.Events, wantS), "the session store that accepted its delivery got exactly the changes made before the first write")
+	}
+	failing := verif.Or(verif.And(failSession, len(wantS) > 0), verif.And(!failSession, len(wantC) > 0))
+	if wrote && !panicked && failing {
+		verif.Assert(firstWriteErr, "the first Write reports the failed delivery")
+	}
 }
